@@ -267,6 +267,28 @@ func init() {
 			}
 			return done(Slice{Arr: obj, Len: len(w), Cap: len(w)})
 		},
+		"verifNetWriteTime": func(e *Exec, t *Thread, a []Value, g bool) (Value, bool) {
+			return done(e.netWriteAt[e.intArg(a[0])])
+		},
+		"verifNetFailFrom": func(e *Exec, t *Thread, a []Value, g bool) (Value, bool) {
+			// every write attempt with index >= n fails (n < 0: never); attempts are counted from now on
+			e.netFailFrom = int(e.intArg(a[0]))
+			e.netAttempts = 0
+			return done(nil)
+		},
+		"verifLockLogField": func(e *Exec, t *Thread, a []Value, g bool) (Value, bool) {
+			// number of acquisitions of the sync.Mutex field with the given name of *obj
+			o, fi := e.mutexField(a[0], e.strArg(a[1]))
+			return done(e.C.BVConst(64, uint64(len(e.sync(e.syncObj(o.child(fi))).acq))))
+		},
+		"verifLockFieldTime": func(e *Exec, t *Thread, a []Value, g bool) (Value, bool) {
+			o, fi := e.mutexField(a[0], e.strArg(a[1]))
+			return done(e.sync(e.syncObj(o.child(fi))).acq[e.intArg(a[2])].at)
+		},
+		"verifLockFieldThread": func(e *Exec, t *Thread, a []Value, g bool) (Value, bool) {
+			o, fi := e.mutexField(a[0], e.strArg(a[1]))
+			return done(e.C.BVConst(64, uint64(e.sync(e.syncObj(o.child(fi))).acq[e.intArg(a[2])].tid)))
+		},
 		"verifNetClosed": func(e *Exec, t *Thread, a []Value, g bool) (Value, bool) {
 			return done(e.C.BVConst(64, uint64(e.netClosed)))
 		},
@@ -580,11 +602,17 @@ func init() {
 		},
 		"(*net.UDPConn).WriteToUDP": func(e *Exec, t *Thread, a []Value, g bool) (Value, bool) {
 			buf := a[1].(Slice)
+			if e.netFailFrom >= 0 && e.netAttempts >= e.netFailFrom {
+				e.netAttempts++
+				return done(Tuple{e.C.BVConst(64, 0), e.opaqueError("net: write failed (injected)")})
+			}
+			e.netAttempts++
 			var w []*term.T
 			for i := 0; i < buf.Len; i++ {
 				w = append(w, e.sliceElem(buf, i).(*term.T))
 			}
 			e.netWrites = append(e.netWrites, w)
+			e.netWriteAt = append(e.netWriteAt, e.nowT())
 			return done(Tuple{e.C.BVConst(64, uint64(buf.Len)), Iface{}})
 		},
 		"(*net.UDPConn).Close": netClose,
@@ -787,6 +815,30 @@ func init() {
 			stubs["sync/atomic.Add"+ty] = add
 		}
 	}
+}
+
+// mutexField resolves a sync.Mutex field of the struct an interface value points to, by name.
+func (e *Exec) mutexField(v Value, name string) (Ptr, int) {
+	iv := v.(Iface)
+	p, ok := iv.V.(Ptr)
+	if !ok || p.IsNil() {
+		e.unsupported("verifLockLogField needs a pointer to a struct")
+	}
+	pt, ok := iv.T.Underlying().(*types.Pointer)
+	if !ok {
+		e.unsupported("verifLockLogField needs a pointer to a struct")
+	}
+	st, ok := pt.Elem().Underlying().(*types.Struct)
+	if !ok {
+		e.unsupported("verifLockLogField needs a pointer to a struct")
+	}
+	for i := 0; i < st.NumFields(); i++ {
+		if st.Field(i).Name() == name {
+			return p, i
+		}
+	}
+	e.unsupported("struct %v has no field %s (harness oracle needs the send lock)", pt.Elem(), name)
+	return Ptr{}, 0
 }
 
 func netClose(e *Exec, t *Thread, a []Value, g bool) (Value, bool) {
